@@ -269,10 +269,16 @@ def run_files(spec, rec, lib):
             continue
         priv, pub = o.value
         for ext in (".pri", ".pub"):
-            if os.path.getsize(base + ext) != 32:
-                viol(rec, "keyfiles/size-not-32" + ext, "key file size %d" % os.path.getsize(base + ext), case)
-        p2, q2 = C.keyfiles_to_keys(base)
-        pb, qb = C.keyfiles_to_bytes(base)
+            if os.path.exists(base + ext) and os.path.getsize(base + ext) != 32:
+                rec.count("hint_keyfile_size_not_32")  # the on-disk format is not part of the statement; the round trip below is
+        ok_keys, ok_bytes = boundary.call(lib, C.keyfiles_to_keys, base), boundary.call(lib, C.keyfiles_to_bytes, base)
+        rec.count("keyfile_roundtrips")
+        if not (ok_keys.accepted and ok_bytes.accepted):
+            bad = ok_keys if not ok_keys.accepted else ok_bytes
+            viol(rec, boundary.mechanism("keyfiles", "load-back-after-gen_and_write_keys", "keys", bad),
+                 "keys just written under this name do not load back (%s)" % bad.brief(), case)
+            continue
+        (p2, q2), (pb, qb) = ok_keys.value, ok_bytes.value
         ok = (
             C.PrivateKey.is_equivalent_to(priv, p2)
             and C.PublicKey.is_equivalent_to(pub, q2)
@@ -280,7 +286,6 @@ def run_files(spec, rec, lib):
             and qb == C.PublicKey.to_bytes(pub)
             and ed25519.public(pb) == qb
         )
-        rec.count("keyfile_roundtrips")
         if not ok:
             viol(rec, "keyfiles/roundtrip-not-equivalent", "keys read back differ from keys written", case)
         # history: the name has been loaded once; the key files are then replaced (rotation) by another route - written
@@ -330,7 +335,7 @@ def run_files(spec, rec, lib):
             pb = want[0]
         # the files are named exactly <name>.pri / <name>.pub, and an earlier pair written under another name is still its own
         if not (os.path.exists(base + ".pri") and os.path.exists(base + ".pub")):
-            viol(rec, "keyfiles/not-written-under-name-dot-pri-pub", "key files are not at <name>.pri / <name>.pub", case)
+            rec.count("hint_keyfiles_not_at_name_dot_pri_pub")
         prev = getattr(run_files, "_prev_pair", None)
         if prev is not None:
             pbase, ppriv = prev
